@@ -718,11 +718,13 @@ func (obj *SparseInt16Matrix) JointIterator(b ConstMatrix) MatrixJointIterator {
 }
 func (obj *SparseInt16Matrix) ITERATOR() *SparseInt16MatrixIterator {
   r := SparseInt16MatrixIterator{*obj.values.ITERATOR(), obj}
+  r.skipOutside()
   return &r
 }
 func (obj *SparseInt16Matrix) ITERATOR_FROM(i, j int) *SparseInt16MatrixIterator {
   k := obj.index(i, j)
   r := SparseInt16MatrixIterator{*obj.values.ITERATOR_FROM(k), obj}
+  r.skipOutside()
   return &r
 }
 func (obj *SparseInt16Matrix) JOINT_ITERATOR(b ConstMatrix) *SparseInt16MatrixJointIterator {
@@ -743,6 +745,20 @@ type SparseInt16MatrixIterator struct {
 }
 func (obj *SparseInt16MatrixIterator) Index() (int, int) {
   return obj.m.ij(obj.SparseInt16VectorIterator.Index())
+}
+func (obj *SparseInt16MatrixIterator) Next() {
+  obj.SparseInt16VectorIterator.Next()
+  obj.skipOutside()
+}
+// the underlying vector also holds the entries of the parent matrix that lie
+// outside a sub-matrix view: skip them
+func (obj *SparseInt16MatrixIterator) skipOutside() {
+  for obj.SparseInt16VectorIterator.Ok() {
+    if i, j := obj.Index(); i >= 0 && i < obj.m.rows && j >= 0 && j < obj.m.cols {
+      return
+    }
+    obj.SparseInt16VectorIterator.Next()
+  }
 }
 func (obj *SparseInt16MatrixIterator) Clone() *SparseInt16MatrixIterator {
   return &SparseInt16MatrixIterator{*obj.SparseInt16VectorIterator.Clone(), obj.m}
